@@ -73,10 +73,10 @@ def focus_for(prop, budget):
         return lambda s, d, lab: any(w in lab for w in words)
 
     def ok_edges(s, d, lab):
-        return lab.startswith(("Ok(", "Setup"))
+        return lab.startswith(("Ok(", "SetOk(", "Setup"))
 
     def refusal_in_ctx(s, d, lab):
-        return lab.startswith("No(") and not any(w in lab for w in NOCTX)
+        return lab.startswith(("No(", "SetNo(")) and not any(w in lab for w in NOCTX)
 
     anything = lambda s, d, lab: True  # noqa: E731
     if prop == "C07":
@@ -85,7 +85,7 @@ def focus_for(prop, budget):
     if prop == "C08":
         return [(has(*NOCTX, '"read"', "Enter", "Exit", "allow_write"), int(budget * 0.7)), (anything, int(budget * 0.3))]
     if prop == "C11":
-        return [(has('"duplicate"', '"full"', '"set"'), budget // 2), (ok_edges, budget // 3), (anything, budget // 6)]
+        return [(has('"duplicate"', '"full"', '"set"', "SetOk", "SetNo"), budget // 2), (ok_edges, budget // 3), (anything, budget // 6)]
     return [(ok_edges, int(budget * 0.7)), (has('"hole"'), None), (anything, int(budget * 0.3))]
 
 
@@ -169,6 +169,33 @@ def run_campaign(run, name, budget, seed, focus_prop, exhaustive_tour=False, mc=
     return traces, verdicts
 
 
+def run_random(run, seed, count, length):
+    """random histories in real geometry (N up to 14, all nine writable types), judged by the same trace spec"""
+    workdir = os.path.join(common.scratch(), "files-random")
+    os.makedirs(workdir, exist_ok=True)
+    traces = []
+    for k in range(count):
+        rng = random.Random(seed * 1000003 + k)
+        world = session.World()
+        path = os.path.join(workdir, f"r{k}.tdf")
+        types, dec, sched = plan.random_history(rng, world, path, length)
+        try:
+            tr = session.run_trace(path, world, types, dec, sched,
+                                   meta=dict(campaign="random", labels=[json.dumps(o, sort_keys=True) for o in sched],
+                                             conc_seed=seed * 1000003 + k, schedule=sched, length=length))
+        finally:
+            if os.path.exists(path):
+                os.unlink(path)
+        traces.append(tr)
+    res, verdicts = validate(traces)
+    steps = sum(len(t["steps"]) for t in traces)
+    run.cov["traces_validated_against_impl"] += len(traces)
+    run.cov["evaluations"] += steps
+    run.cov["tlc_runs"].append(dict(name="TRACE random histories (N<=14, nine writable types)", traces=len(traces), steps=steps,
+                                    **res.summary()))
+    return traces, verdicts
+
+
 def report(run, traces, verdicts, prop):
     others = {}
     for tid, (upto, cl) in verdicts.items():
@@ -207,8 +234,16 @@ def check(prop, tier, seed, replay=None):
     if replay:
         with open(replay) as fh:
             rp = json.load(fh)["replay"]
-        init, adj, descs, _ = graph(rp["campaign"])
-        tr = execute_tour(rp["campaign"], rp["labels"], rp["conc_seed"], common.scratch(), descs)
+        if rp["campaign"] == "random":
+            rng = random.Random(rp["conc_seed"])
+            world = session.World()
+            path = os.path.join(common.scratch(), "replay.tdf")
+            types, dec, sched = plan.random_history(rng, world, path, len(rp["labels"]))
+            tr = session.run_trace(path, world, types, dec, sched, meta=dict(campaign="random", labels=rp["labels"],
+                                                                            conc_seed=rp["conc_seed"]))
+        else:
+            init, adj, descs, _ = graph(rp["campaign"])
+            tr = execute_tour(rp["campaign"], rp["labels"], rp["conc_seed"], common.scratch(), descs)
         res, verdicts = validate([tr])
         run.cov["traces_validated_against_impl"] = 1
         run.cov["evaluations"] = len(tr["steps"])
@@ -232,6 +267,11 @@ def check(prop, tier, seed, replay=None):
             run.sample(sample_of(tr))
         report(run, traces, verdicts, prop)
         total_distinct += len({json.dumps(t["meta"]["labels"]) for t in traces})
+    traces, verdicts = run_random(run, seed, 40 if tier == "quick" else 1500, 45)
+    for tr in traces[:1]:
+        run.sample(dict(campaign="random", first_calls=tr["meta"]["schedule"][:6]))
+    report(run, traces, verdicts, prop)
+    total_distinct += len(traces)
     run.cov["distinct_nontrivial"] = total_distinct
     run.cov["rule"] = ("transition tours over TLC's labelled state graph of MCSession (every selected edge = one "
                        "(model state, call) pair, executed on real files and judged by TLC against TdfSessionTrace); "
